@@ -17,7 +17,7 @@ ASSUMPTIONS = [
 ]
 SHARDS = E.SHARDS
 TIMEOUT = E.TIMEOUT
-MINIMUMS = {"quick": {"enga_runs": 10, "distinct_plan_trace": 3000, "launch_events": 8000, "feature:foreign": 120, "feature:tokens:2": 60}, "thorough": {"distinct_plan_trace": 100000, "launch_events": 250000, "feature:foreign": 3000, "feature:tokens:2": 2000}}
+MINIMUMS = {"quick": {"enga_runs": 10, "retotal_cases": 10, "distinct_plan_trace": 3000, "launch_events": 8000, "feature:foreign": 120, "feature:tokens:2": 60}, "thorough": {"distinct_plan_trace": 100000, "launch_events": 250000, "feature:foreign": 3000, "feature:tokens:2": 2000}}
 PROFILES = [PlanProfile(tokens=1, p_token=0.9, max_jobs=7, p_edge=0.2), PlanProfile(tokens=2, p_token=0.9, two_tokens=0.6, p_edge=0.2), PlanProfile(tokens=1, p_token=0.9, foreign=0.9, p_edge=0.2), PlanProfile(tokens=2, p_token=0.8, foreign=0.7, two_tokens=0.5, p_fail=0.2)]
 _engb_worker = E.make_worker(PROPERTY, PROFILES, {"quick": 1600, "thorough": 40000}, {"quick": 5, "thorough": 6}, nontrivial=lambda plan: sum(1 for j in plan["jobs"] if j["tokens"]) >= 2)
 replay = E.make_replay(PROPERTY)
@@ -34,6 +34,7 @@ def worker(ctx):
         _engb_worker(ctx)
     for _ in range(NREAL[ctx.tier]):
         A.run_stress(ctx, PROPERTY, "token", ctx.rng)
+        A.run_retotal(ctx, ctx.rng)
     # single-delay sweep over the statements of the token / lock code (quick: one statement per shard; thorough: all)
     pts = A.preemption_points()
     mine = pts[ctx.shard :: ctx.nshards]
